@@ -97,8 +97,10 @@ def oracle_field(ty, lit):
     return True, x, 'float literal'
 
 
-def oracle_enum(ty, bit_flags, members, is_union=False):
-    """members: list of None | Lit. Returns list of ints or None (rejected). Plain integer semantics."""
+def oracle_enum(ty, bit_flags, members, is_union=False, ascending=False):
+    """members: list of None | Lit. Returns list of ints or None (rejected). Plain integer semantics.
+    ascending (option ascending_enum): every member strictly greater than its predecessor as mathematical integers
+    (bit_flags: by position, which is the same order)."""
     ty = base_type(ty)
     lo, hi = INT_TYPES[ty]
     bits = SIZES[ty] * 8
@@ -110,6 +112,7 @@ def oracle_enum(ty, bit_flags, members, is_union=False):
             if m.kind in ('bad', 'float') or not m.in_carrier(): return None
             if bit_flags and (m.kind == 'bool' or m.neg): return None     # position must be an unsigned integer literal
             n = m.value
+        if ascending and k > 0 and not (prev < n): return None
         if bit_flags:
             if not (0 <= n < bits and 2**n <= hi): return None
             out.append(2**n)
